@@ -419,7 +419,11 @@ fn observe_store(s: &TensorStore) -> Obs {
     for k in s.scan("") {
         match s.get(&k) {
             Ok(d) => {
-                o.keys.insert(k, fields_of(&d));
+                let mut f = fields_of(&d);
+                if !s.exists(&k) {
+                    f.insert("<exists() is false for a listed key>".to_string(), TensorValue::Pointer(String::new()));
+                }
+                o.keys.insert(k, f);
             }
             Err(e) => {
                 o.keys.insert(k, BTreeMap::from([("<get failed>".to_string(), TensorValue::Pointer(format!("{e}")))]));
@@ -490,14 +494,18 @@ enum Fmt {
     /// … on a store that already holds other data and has stored and deleted embeddings before
     /// (restore must replace, not merge, and must not reuse state of the old content)
     BytesIntoDirty,
+    /// save_snapshot → load_snapshot_with_bloom_filter (the loaded store answers get/exists through its filter)
+    FileBloom,
+    /// snapshot_bytes → restore_from_bytes on a fresh store that was built with a Bloom filter
+    BytesIntoBloom,
     /// TensorStore::save_snapshot_compressed(cfg) → load_snapshot_compressed
     Quant(QCfg),
 }
 impl Fmt {
     fn family(&self) -> &'static str {
         match self {
-            Fmt::File | Fmt::FilePlain | Fmt::RouterFile | Fmt::RouterBytes => "v3",
-            Fmt::Bytes | Fmt::BytesIntoDirty => "restore_from_bytes",
+            Fmt::File | Fmt::FilePlain | Fmt::RouterFile | Fmt::RouterBytes | Fmt::FileBloom => "v3",
+            Fmt::Bytes | Fmt::BytesIntoDirty | Fmt::BytesIntoBloom => "restore_from_bytes",
             Fmt::Quant(_) => "quantising",
         }
     }
@@ -530,8 +538,8 @@ fn tt_lengths(o: &Obs) -> BTreeSet<usize> {
 fn formats_for(orig: &Obs, level: Level) -> Vec<Fmt> {
     let mut f = match level {
         // RouterFile is the same code path as File (TensorStore::save_snapshot = router.save_to_file)
-        Level::Lean => vec![Fmt::File, Fmt::FilePlain, Fmt::RouterBytes, Fmt::Bytes, Fmt::BytesIntoDirty, Fmt::Quant(QCfg::Plain), Fmt::Quant(QCfg::DeltaRle)],
-        Level::Full => vec![Fmt::File, Fmt::FilePlain, Fmt::RouterFile, Fmt::RouterBytes, Fmt::Bytes, Fmt::BytesIntoDirty, Fmt::Quant(QCfg::Plain), Fmt::Quant(QCfg::DeltaRle)],
+        Level::Lean => vec![Fmt::File, Fmt::FilePlain, Fmt::FileBloom, Fmt::RouterBytes, Fmt::Bytes, Fmt::BytesIntoDirty, Fmt::BytesIntoBloom, Fmt::Quant(QCfg::Plain), Fmt::Quant(QCfg::DeltaRle)],
+        Level::Full => vec![Fmt::File, Fmt::FilePlain, Fmt::FileBloom, Fmt::RouterFile, Fmt::RouterBytes, Fmt::Bytes, Fmt::BytesIntoDirty, Fmt::BytesIntoBloom, Fmt::Quant(QCfg::Plain), Fmt::Quant(QCfg::DeltaRle)],
     };
     let l = tt_lengths(orig);
     if l.len() == 1 {
@@ -584,6 +592,17 @@ fn round_trip(s: &TensorStore, fmt: Fmt, dim: usize) -> Result<Loaded, (String, 
         Fmt::FilePlain => {
             catch("save", || tensor_store::snapshot::save_v3_uncompressed(s.router(), &path).map_err(|e| e.to_string()))?;
             catch("load", || TensorStore::load_snapshot(&path).map(Loaded::Store).map_err(|e| e.to_string()))
+        }
+        Fmt::FileBloom => {
+            catch("save", || s.save_snapshot(&path).map_err(|e| e.to_string()))?;
+            catch("load", || TensorStore::load_snapshot_with_bloom_filter(&path, 1000, 0.01).map(Loaded::Store).map_err(|e| e.to_string()))
+        }
+        Fmt::BytesIntoBloom => {
+            let b = catch("save", || s.snapshot_bytes().map_err(|e| e.to_string()))?;
+            // (a Bloom-filtered store always has the default slab dimension)
+            let t = TensorStore::with_bloom_filter(1000, 0.01);
+            catch("load", || t.restore_from_bytes(&b).map_err(|e| e.to_string()))?;
+            Ok(Loaded::Store(t))
         }
         Fmt::RouterFile => {
             catch("save", || s.router().save_to_file(&path).map_err(|e| e.to_string()))?;
@@ -999,7 +1018,8 @@ fn run_built(spec: &Spec, s: &TensorStore, orig: &Obs, only: Option<Fmt>, level:
     t.distinct_stores.insert(obs_digest(orig));
     let fmts = match only {
         Some(f) => vec![f],
-        None => formats_for(orig, level),
+        // a Bloom-filtered store has the default slab dimension: only stores of that dimension go there
+        None => formats_for(orig, level).into_iter().filter(|f| *f != Fmt::BytesIntoBloom || spec.dim == 384).collect(),
     };
     for fmt in fmts {
         t.round_trips += 1;
@@ -1042,7 +1062,7 @@ fn run_specs_per_format(specs: Vec<Spec>, level: Level, selftest: bool) -> Tally
         let orig = observe_store(&s);
         // GraphTensor::snapshot reorganises the original on the first save; do it before sharing
         let _ = s.snapshot_bytes();
-        let fmts = formats_for(&orig, level);
+        let fmts: Vec<Fmt> = formats_for(&orig, level).into_iter().filter(|f| *f != Fmt::BytesIntoBloom || spec.dim == 384).collect();
         let t = fmts
             .par_iter()
             .map(|f| {
